@@ -180,28 +180,42 @@ impl Core {
         }
     }
 
-    fn known_sender_class(&self, s: &Session, oi: &ObjInfo) -> Option<&'static str> {
+    /// input classes of defects owned by other components (sender side), so that their failures are
+    /// told apart from anything new
+    fn known_classes(&self, s: &Session, oi: &ObjInfo) -> Vec<&'static str> {
+        let mut v = Vec::new();
         // the FDT itself is an object coded with the session's default OTI
         if s.sp.oti.sch == Scheme::Raptor && (s.fdts.is_empty() || s.fdts.iter().any(|f| ks_of(&s.sp.oti, f.len).iter().any(|k| *k < 4))) {
-            return Some("C01:raptor-block-lt4");
+            v.push("C01:raptor-block-lt4");
         }
         if matches!(s.sp.oti.sch, Scheme::Rs | Scheme::RsUs) && s.sp.oti.p == 0 {
-            return Some("C01:D21-rs-parity0");
-        }
-        if (oi.p.src == "stream" || oi.p.src == "sparse" || oi.p.src == "file") && oi.p.cenc != "null" {
-            return Some("C01:D18-stream-cenc");
+            v.push("C01:D21-rs-parity0");
         }
         if matches!(oi.oti.sch, Scheme::Rs | Scheme::RsUs) && oi.oti.p == 0 && oi.tl.unwrap_or(0) > 0 {
-            return Some("C01:D21-rs-parity0");
+            v.push("C01:D21-rs-parity0");
         }
         if oi.oti.sch == Scheme::Raptor && ks_of(&oi.oti, oi.tl.unwrap_or(0)).iter().any(|k| *k < 4) {
-            return Some("C01:raptor-block-lt4");
+            v.push("C01:raptor-block-lt4");
         }
-        None
+        if (oi.p.src == "stream" || oi.p.src == "sparse" || oi.p.src == "file") && oi.p.cenc != "null" {
+            v.push("C01:D18-stream-cenc");
+        }
+        v
+    }
+
+    fn known_sender_class(&self, s: &Session, oi: &ObjInfo) -> Option<&'static str> {
+        self.known_classes(s, oi).first().copied()
     }
 
     fn oracle_sender_panic(&self, s: &Session, p: &str, o: &mut Oracle) {
-        let cls = s.objs.iter().filter_map(|oi| self.known_sender_class(s, oi)).next().unwrap_or("C01:sender-panic");
+        // only a failing block creation makes `read` panic (debug_assert at blockencoder.rs:81)
+        let cls = s
+            .objs
+            .iter()
+            .flat_map(|oi| self.known_classes(s, oi))
+            .filter(|c| *c != "C01:D18-stream-cenc")
+            .next()
+            .unwrap_or("C01:sender-panic");
         let cls = if s.sp.prop == "C01" { cls.to_string() } else { format!("{}:sender-panic", s.sp.prop) };
         o.fail(&cls, &format!("Sender::read panics at {}", p));
     }
@@ -345,7 +359,22 @@ impl Core {
                 }
             }
             for (c, d) in fails {
-                let cls = if c.starts_with("C01:meta-") || c == "C01:no-cache-redelivered" { c } else { known.map(|k| k.to_string()).unwrap_or(c) };
+                // receiver.rs check_object_state: a NoCache object is not entered in objects_completed, so the
+                // packets that follow its completion re-create it (second copy, or an interrupted writer)
+                let nocache = oi.p.cc == "nocache" && nc >= 1 && (c == "C01:delivered-too-often" || c == "C01:error-call");
+                // receiver.rs gc_object_completed: a TOI not listed by the newest FDT instance is forgotten; in
+                // ObjectsBeingTransferred mode that is every object whose transfer ended, so its next transfer
+                // is delivered again although receive-once is on
+                let obt_gc = !s.sp.full && s.sp.ro && (oi.p.m > 1 || carousel) && c == "C01:delivered-too-often";
+                let cls = if c.starts_with("C01:meta-") {
+                    c
+                } else if obt_gc {
+                    "C01:obt-gc-redelivered".to_string()
+                } else if nocache {
+                    "C01:no-cache-redelivered".to_string()
+                } else {
+                    known.map(|k| k.to_string()).unwrap_or(c)
+                };
                 o.fail(&cls, &d);
             }
         }
